@@ -19,7 +19,7 @@ RULE = ("one evaluation = one write history (cut set of the rows x write(table)/
         "content == one write of the whole table, (iii) canonical layout per the reference model, (iv) read-back == table. "
         "Non-trivial = at least 2 write steps or a reopen; distinct = distinct tuples (format, target, op-kind sequence "
         "class, number of pieces bucket, reopen count bucket, empty piece present, interleaved, fault)")
-BUDGET = {"quick": (6000, 40), "thorough": (90000, 900)}
+BUDGET = {"quick": (20000, 40), "thorough": (400000, 900)}
 
 FORMAT_WEIGHTS = [(3, "bed3"), (3, "bed6"), (2, "bed12"), (3, "bdg"), (3, "narrowpeak"), (3, "fastaw"), (2, "fasta2"),
                   (3, "fastq"), (3, "sam"), (2, "gtf"), (2, "vcf")]
@@ -81,8 +81,11 @@ def generate(ctx):
             ops.append({"op": "write", "piece": pieces[i]})
             i += 1
     gz = tape.boolean("gzip", 1, 3)
+    # where the table comes from: the public constructor, or an eager read of a canonical file (then it carries the
+    # source file's header as context, which must be written exactly once)
+    source = tape.weighted([(3, "memory"), (1, "eager_read"), (1, "lazy_read")], "source") if rows else "memory"
     sc = {"format": fmt.name, "rows": rows, "ops": ops, "gzip": gz, "path": f"/sim/o{fmt.suffix}{'.gz' if gz else ''}",
-          "eio_nth": 0, "second": None, "interleaving": []}
+          "eio_nth": 0, "second": None, "interleaving": [], "source": source}
     if tape.boolean("eio", 1, 8):
         sc["eio_nth"] = 1 + tape.draw(4, "eio.nth")
     elif tape.boolean("second_writer", 1, 5):
@@ -264,10 +267,32 @@ def execute(ctx, sc):
     kinds = [o["op"] for o in sc["ops"]]
     n_reopen = kinds.count("reopen")
     with simfs.Mount(fs), core.quiet():
-        bt = call(build_table, fmt, rows)
-        if raised(bt):
-            raise Violation("constructible", f"{fmt.name}.constructor_raises", dict(detail, error=repr(bt)))
-        table, cls = bt
+        source = sc.get("source", "memory")
+        detail["source"] = source
+        if source == "memory":
+            bt = call(build_table, fmt, rows)
+            if raised(bt):
+                raise Violation("constructible", f"{fmt.name}.constructor_raises", dict(detail, error=repr(bt)))
+            table, cls = bt
+        else:
+            src_style = {"crlf": False, "final_newline": True, "header": bool(fmt.header), "wrap": 60}
+            src_data, _ = T.serialize(fmt, rows, src_style)
+            src_path = "/sim/src" + fmt.suffix
+            fs.put(src_path, src_data)
+            spec = iosim.ReaderSpec(fmt, src_path, False, source == "lazy_read", "path")
+
+            def read_src():
+                r = iosim.open_reader(spec)
+                try:
+                    return r.read()
+                finally:
+                    r.close()
+            table = call(read_src)
+            if raised(table):
+                raise Inconclusive("source read raises: " + table.type)
+            import bionumpy.datatypes as dt
+            cls = getattr(dt, fmt.dataclass)
+            ctx.probe("table_from_" + source)
         # reference: one write of the whole table
         ref_path = "/sim/ref" + fmt.suffix
         refw = Writer(fs, {"path": ref_path, "ops": [{"op": "write", "piece": [0, len(rows)]}]}, fmt, table, cls)
@@ -318,7 +343,7 @@ def execute(ctx, sc):
         fs.faults.clear()
         ctx.state(fmt.name, sc["gzip"], "+".join(sorted(set(kinds))), min(len(kinds), 4), min(n_reopen, 2),
                   any(o.get("piece", [0, 1])[0] == o.get("piece", [0, 1])[1] for o in sc["ops"] if o["op"] == "write"),
-                  bool(second), "eio" if fired else None)
+                  bool(second), "eio" if fired else None, sc.get("source", "memory"))
         if n_reopen:
             ctx.probe("reopen_append")
         if "stream" in kinds:
